@@ -7,16 +7,18 @@ Neutral DAG (what the REAL object graph of an expression looks like, exported by
     ['I32', z] ['True'] ['False'] ['Bin', op] ['Un', op] ['Cmp', op] ['If'] ['Let', x] ['Ref', x]
     ['MakeStruct', [f...]] ['GetField', f] ['MakeArray'] ['ArrayLen'] ['CastToArray'] ['ToArray'] ['ToStream']
     ['StreamMap', x] ['StreamFilter', x] ['StreamFold', acc, x]
+    ['Idx', neg]  (neg=False: ArrayRef, fails unless 0 <= i < n; neg=True: Apply indexArray, fails unless -n <= i < n)
+  Bin ops: + - * // %   (// and % FAIL on a zero divisor)
 Neutral term (rendered IR read back, or model output): [head, [children terms]]  (no ids).
 """
 import re
 
-BIN_OPS = ['+', '-', '*']
+BIN_OPS = ['+', '-', '*', '//', '%']
 UN_OPS = ['-', '!']
 CMP_OPS = ['<', '<=', '>', '>=', '==', '!=']
 
 ARITY = {'I32': 0, 'True': 0, 'False': 0, 'Bin': 2, 'Un': 1, 'Cmp': 2, 'If': 3, 'Let': 2, 'Ref': 0, 'GetField': 1,
-         'ArrayLen': 1, 'CastToArray': 1, 'ToArray': 1, 'ToStream': 1, 'StreamMap': 2, 'StreamFilter': 2, 'StreamFold': 3}
+         'ArrayLen': 1, 'CastToArray': 1, 'ToArray': 1, 'ToStream': 1, 'StreamMap': 2, 'StreamFilter': 2, 'StreamFold': 3, 'Idx': 2}
 
 
 class ReadError(Exception):
@@ -119,6 +121,18 @@ def parse_ir(text):
         elif name == 'StreamFold':
             a = _ident(take())
             h, cs = ['StreamFold', a, _ident(take())], children(3)
+        elif name == 'ArrayRef':
+            take()  # error id
+            h, cs = ['Idx', False], children(2)
+        elif name == 'Apply':
+            take()  # error id
+            fn = _ident(take())
+            if fn != 'indexArray':
+                raise ReadError(f'function {fn!r} is outside the modelled subset')
+            take('(')
+            take(')')   # no type arguments
+            take()      # return type (one token: no spaces in the parsable form of the modelled types)
+            h, cs = ['Idx', True], children(2)
         else:
             raise ReadError(f'IR node {name!r} is outside the modelled subset')
         take(')')
@@ -165,9 +179,56 @@ def term_size(t):
 
 
 # ------------------------------------------------------------------------------------------------
-# reference evaluator (total; int32 wrap-around; junk value for ill-typed applications) — used by the ORACLE only
+# reference evaluator (int32 wrap-around; junk value for ill-typed applications) — used by the ORACLE only.
+# evaluate(): total (a failing operation gives junk).  evaluate_err(): the semantics with errors — strict Let, If evaluates
+# only the branch taken, loops evaluate their body once per element, `//` `%` by zero and out-of-bounds indexing FAIL:
+# returns ERR or a value, and (second component) the innermost `__cse_` let whose bound expression was being evaluated when
+# the failure happened.
 
 JUNK = ['junk']
+ERR = ['err']
+
+
+class Fail(Exception):
+    pass
+
+
+_STRICT = [False]
+_LETS = []       # stack of let names whose VALUE is being evaluated (error mode)
+_FAILED_IN = [None]
+
+
+def _fail():
+    if _FAILED_IN[0] is None:
+        cse = [n for n in _LETS if n.startswith('__cse_')]
+        _FAILED_IN[0] = cse[-1] if cse else ''
+    raise Fail()
+
+
+def evaluate_err(t, env):
+    """(result, name of the innermost __cse_ let being evaluated at the failure or '' / None)."""
+    _STRICT[0] = True
+    _LETS.clear()
+    _FAILED_IN[0] = None
+    try:
+        return evaluate(t, env), None
+    except Fail:
+        return ERR, _FAILED_IN[0]
+    finally:
+        _STRICT[0] = False
+        _LETS.clear()
+
+
+def _floordiv(a, b):
+    return a // b
+
+
+def idx_pos(neg, n, z):
+    if 0 <= z < n:
+        return z
+    if neg and -n <= z < 0:
+        return n + z
+    return None
 
 
 def _wrap(z):
@@ -195,7 +256,23 @@ def evaluate(t, env):
         a, b = evaluate(cs[0], env), evaluate(cs[1], env)
         if not (_int(a) and _int(b)):
             return JUNK
+        if h[1] in ('//', '%'):
+            if b[1] == 0:
+                if _STRICT[0]:
+                    _fail()
+                return JUNK
+            return ['int', _wrap(a[1] // b[1] if h[1] == '//' else a[1] % b[1])]
         return ['int', _wrap({'+': a[1] + b[1], '-': a[1] - b[1], '*': a[1] * b[1]}[h[1]])]
+    if k == 'Idx':
+        a, i = evaluate(cs[0], env), evaluate(cs[1], env)
+        if a[0] != 'arr' or not _int(i):
+            return JUNK
+        p = idx_pos(h[1], len(a[1]), i[1])
+        if p is None:
+            if _STRICT[0]:
+                _fail()
+            return JUNK
+        return a[1][p]
     if k == 'Un':
         a = evaluate(cs[0], env)
         if h[1] == '-':
@@ -214,7 +291,9 @@ def evaluate(t, env):
         return evaluate(cs[1] if c[1] else cs[2], env)
     if k == 'Let':
         e2 = dict(env)
+        _LETS.append(h[1])
         e2[h[1]] = evaluate(cs[0], env)
+        _LETS.pop()
         return evaluate(cs[1], e2)
     if k == 'MakeStruct':
         return ['struct', [[f, evaluate(c, env)] for f, c in zip(h[1], cs)]]
@@ -305,6 +384,7 @@ class Gen:
         if d <= 0:
             return self.leaf(t, py, var)
         opts = ['if', 'bind']
+        opts.append('idx')
         if t == 'int':
             opts += ['lit', 'bin', 'bin', 'bin', 'neg', 'len', 'fold', 'field']
             if self.mode == 'ir':
@@ -322,7 +402,7 @@ class Gen:
         if k == 'free':
             return ['var', rng.choice(['g', 'h']), 'int']
         if k == 'bin':
-            return ['bin', rng.choice(BIN_OPS), self.gen('int', h, py, var), self.gen('int', h, py, var)]
+            return ['bin', rng.choice(BIN_OPS if self.mode == 'ir' else BIN_OPS[:4]), self.gen('int', h, py, var), self.gen('int', h, py, var)]   # API `%` is a function call (Apply mod): outside the subset
         if k == 'neg':
             return ['un', '-', self.gen('int', d - 1, py, var)]
         if k == 'not':
@@ -337,6 +417,11 @@ class Gen:
             return ['bind', x, self.gen(bt, h, py, var), self.gen(t, h, py, var + [(x, bt)])]
         if k == 'len':
             return ['len', self.gen(['array', rng.choice(['int', 'bool'])], d - 1, py, var)]
+        if k == 'idx':
+            if t[0] == 'array':     # arrays of arrays are outside the generated types
+                return self.leaf(t, py, var)
+            return ['idx', self.gen(['array', t], h, py, var),
+                    ['int', rng.choice([0, 0, 1, 1, 2, -1, 3])] if rng.random() < 0.7 else self.gen('int', d // 3, py, var)]
         if k == 'fold':
             et = rng.choice(['int', 'int', rng.choice(STRUCT_TYPES)])
             acc, x = self.binder(), self.binder()
@@ -402,7 +487,7 @@ class Names:
         return {k: s for s, k in self.fields.items()}[n]
 
 
-_BIN = {'+': 'Add', '-': 'Sub', '*': 'Mul'}
+_BIN = {'+': 'Add', '-': 'Sub', '*': 'Mul', '//': 'Div', '%': 'Mod'}
 _UN = {'-': 'Neg', '!': 'Not'}
 _CMP = {'<': 'Lt', '<=': 'Le', '>': 'Gt', '>=': 'Ge', '==': 'Eq', '!=': 'Ne'}
 
@@ -427,6 +512,8 @@ def head_to_coq(h, names):
         return '(HMakeStruct [' + '; '.join(names.field(f) for f in h[1]) + '])'
     if k == 'GetField':
         return f'(HGetField {names.field(h[1])})'
+    if k == 'Idx':
+        return f'(HIdx {"true" if h[1] else "false"})'
     raise ReadError(f'head outside the model: {h}')
 
 
@@ -488,9 +575,19 @@ def coq_to_term(v, names):
             hh = [k, [names.field_back(f) for f in h[1]]]
         elif k == 'GetField':
             hh = [k, names.field_back(h[1])]
+        elif k == 'Idx':
+            hh = [k, bool(h[1])]
         else:
             raise ReadError(f'unexpected head from the model: {h}')
     return [hh, [coq_to_term(c, names) for c in cs]]
+
+
+def coq_to_result(v, names):
+    """Model `result` (Val v | Err) -> value or ERR."""
+    if v == 'Err':
+        return ERR
+    assert v[0] == 'Val', v
+    return coq_to_value(v[1], names)
 
 
 def coq_to_value(v, names):
@@ -557,3 +654,141 @@ def targeted_program(rng, mode):
         i = rng.randrange(len(occ) - 1)
         occ[i:i + 2] = [['bin', rng.choice(['+', '+', '*']), occ[i], occ[i + 1]]]
     return ['share', 't', tdef, ['share', 'X', inner, occ[0]]]
+
+
+# ------------------------------------------------------------------------------------------------
+# targeted programs with FAILING shared subexpressions: an expression whose evaluation fails (division / modulus by zero,
+# index out of bounds) is shared (used at least twice) in places that are evaluated or not: the branch of an If that is /
+# is not taken, the body of a loop over an empty / non-empty array (guarded by the loop variable or not), under lets,
+# structs and nested conditionals.  Rendering must not change whether the program fails.
+
+def failing_program(rng, mode):
+    n = [0]
+
+    def fresh(p):
+        n[0] += 1
+        return f'{p}{n[0]}' if mode == 'api' else rng.choice(['x', 'y', 'z'])
+
+    def zero():
+        return rng.choice([['int', 0], ['bin', '-', ['int', 3], ['int', 3]], ['bin', '*', ['int', 0], ['int', 7]],
+                           ['len', ['filter', fresh('f'), ['array', [['int', 1]]], ['bool', False]]]])
+
+    def arr(k):
+        return ['array', [['int', 10 + i] for i in range(k)]]
+
+    def failing(var_int=None):
+        """an int expression that fails; with var_int: fails only for some values of that variable"""
+        kind = rng.choice(['div', 'mod', 'idx', 'idxneg'] if mode == 'ir' else ['div', 'div', 'idx', 'idxneg'])
+        if var_int is not None:
+            v = ['var', var_int, 'int']
+            if kind in ('div', 'mod'):
+                return ['bin', '//' if kind == 'div' else '%', ['int', rng.choice([12, 7, -5])], v], 'zero'
+            return ['idx', arr(3), v], 'big'
+        if kind == 'div':
+            return ['bin', '//', ['int', rng.choice([1, 12, -7])], zero()], None
+        if kind == 'mod':
+            return ['bin', '%', ['int', rng.choice([1, 12, -7])], zero()], None
+        k = rng.randint(1, 3)
+        if kind == 'idx' or mode == 'ir':
+            return ['idx', arr(k), ['int', k + rng.randint(0, 2)]], None
+        return ['idx', arr(k), ['int', -(k + 1 + rng.randint(0, 2))]], None
+
+    def uses(name):
+        u = ['use', name]
+        return rng.choice([['bin', '+', u, u], ['bin', '-', ['bin', '*', u, u], u], ['bin', '+', ['un', '-', u], ['bin', '*', u, ['int', 2]]],
+                           ['field', 'p', ['struct', [['p', u], ['q', u]]]], ['bin', '+', u, ['bind', fresh('b'), ['int', 1], u]]])
+
+    def cond(truth):
+        a = rng.randint(0, 3)
+        c = rng.choice([['bool', truth], ['cmp', '<', ['int', a], ['int', a + 1]] if truth else ['cmp', '<', ['int', a + 1], ['int', a]],
+                        ['cmp', '==', zero(), ['int', 0]] if truth else ['cmp', '!=', zero(), ['int', 0]]])
+        return c
+
+    def guarded(body, taken_else):
+        """an If whose branch holding `body` is NOT the one evaluated"""
+        safe = ['int', rng.randint(0, 9)]
+        return ['if', cond(False), body, safe] if not taken_else else ['if', cond(True), safe, body]
+
+    shape = rng.choice(['else', 'else', 'then', 'then', 'nested', 'loop-guard', 'loop-guard', 'loop-empty', 'loop-live', 'both', 'let'])
+    if shape in ('else', 'then'):
+        f, _ = failing()
+        core = ['share', 'F', f, guarded(uses('F'), shape == 'else')]
+    elif shape == 'nested':
+        f, _ = failing()
+        inner = guarded(uses('F'), rng.random() < 0.5)
+        core = ['share', 'F', f, ['if', cond(True), ['bin', '+', inner, ['int', 1]], ['int', 0]] if rng.random() < 0.5
+                else guarded(['bin', '+', inner, uses('F')], rng.random() < 0.5)]
+    elif shape == 'loop-guard':
+        x = fresh('e')
+        f, how = failing(x)
+        src = ['array', [['int', v] for v in ([0, 1, 2, 3] if how == 'zero' else [0, 1, 2, 3, 4])]]
+        bad = ['cmp', '==', ['var', x, 'int'], ['int', 0]] if how == 'zero' else ['cmp', '>=', ['var', x, 'int'], ['int', 3]]
+        good = ['un', '!', bad]
+        body = ['share', 'F', f, ['if', bad, ['int', -1], uses('F')] if rng.random() < 0.6 else ['if', good, uses('F'), ['int', -1]]]
+        core = rng.choice([['len', ['map', x, src, body]], ['fold', fresh('a'), x, src, ['int', 0], body]])
+    elif shape in ('loop-empty', 'loop-live'):
+        f, _ = failing()
+        x = fresh('e')
+        src = ['filter', fresh('g'), arr(2), ['bool', shape == 'loop-live']]
+        core = ['share', 'F', f, rng.choice([['len', ['map', x, src, uses('F')]],
+                                             ['fold', fresh('a'), x, src, ['int', 0], uses('F')],
+                                             ['len', ['filter', x, src, ['cmp', '<', uses('F'), ['int', 3]]]]])]
+    elif shape == 'both':
+        f, _ = failing()
+        core = ['share', 'F', f, ['bin', '+', guarded(uses('F'), rng.random() < 0.5), ['use', 'F'] if rng.random() < 0.5 else ['int', 4]]]
+    else:
+        f, _ = failing()
+        b = fresh('b')
+        core = ['share', 'F', f, ['bind', b, ['int', 5], guarded(['bin', '+', ['var', b, 'int'], uses('F')], rng.random() < 0.5)]]
+    # outer context
+    ctx = rng.choice(['none', 'none', 'plus', 'struct', 'map', 'bind', 'neg'])
+    if ctx == 'plus':
+        return ['bin', '+', ['int', 1], core]
+    if ctx == 'struct':
+        return ['struct', [['a', core]]]
+    if ctx == 'map':
+        return ['map', fresh('o'), arr(2), core]
+    if ctx == 'bind':
+        return ['bind', fresh('b'), ['int', 2], core]
+    if ctx == 'neg':
+        return ['un', '-', core]
+    return core
+
+
+# ------------------------------------------------------------------------------------------------
+# where, relative to the let that binds it, is a `__cse_` name used?  (classification of an introduced failure)
+
+def _is_loop_body(h, i):
+    return (h[0] in ('StreamMap', 'StreamFilter') and i == 1) or (h[0] == 'StreamFold' and i == 2)
+
+
+def use_paths(t, name):
+    """For every use of `name` in t: the set of edge kinds ('if' = branch of an If, 'loop' = loop body) between t and the
+    use; a use inside the bound expression of another `__cse_` let counts through the uses of that let."""
+    h, cs = t
+    if h[0] == 'Ref':
+        return [frozenset()] if h[1] == name else []
+    if h[0] == 'Let' and h[1] != name:
+        in_val, in_body = use_paths(cs[0], name), use_paths(cs[1], name)
+        if in_val and h[1].startswith('__cse_'):
+            via = use_paths(cs[1], h[1])
+            in_val = [a | b for a in in_val for b in via] if via else in_val
+        return in_val + in_body
+    out = []
+    for i, c in enumerate(cs):
+        if h[0] == 'Let' and i == 1 and h[1] == name:
+            continue
+        fl = frozenset(['if']) if (h[0] == 'If' and i in (1, 2)) else frozenset(['loop']) if _is_loop_body(h, i) else frozenset()
+        out += [p | fl for p in use_paths(c, name)]
+    return out
+
+
+def find_let(t, name):
+    h, cs = t
+    if h[0] == 'Let' and h[1] == name:
+        return t
+    for c in cs:
+        r = find_let(c, name)
+        if r is not None:
+            return r
+    return None
